@@ -41,6 +41,7 @@ type Thread struct {
 	lastKind string
 	epoch    int // scheduler step at which the pending operation was first seen (FIFO fairness of the default schedule)
 	seen     bool
+	quiet    int  // >0: gates of this thread run inline without a scheduling point (harness observation between requests)
 	parked   bool // PARK deviation: lowest priority until nothing else is enabled
 }
 
@@ -241,6 +242,15 @@ func Gate(kind string, obj any, enabled func() bool, apply func()) {
 		return
 	}
 	th := current()
+	if th.quiet > 0 {
+		if enabled != nil && !enabled() {
+			panic("vs: observation touched an object that is not available: " + kind)
+		}
+		if apply != nil {
+			apply()
+		}
+		return
+	}
 	S.mu.Lock()
 	op := &Op{Kind: kind, Obj: label(th, obj), Enabled: enabled, Apply: apply}
 	th.pending = op
@@ -299,6 +309,29 @@ func (mo *Monitor) Wake(f func()) {
 
 // Pt is a pure scheduling point.
 func Pt(l string) { Gate("pt", l, nil, nil) }
+
+// Quiet runs f - harness code observing the world between two requests, at quiescence - without creating
+// scheduling points, so that an execution meets the same points whether or not it is observed.
+func Quiet(f func()) {
+	if !S.Active {
+		f()
+		return
+	}
+	th := current()
+	th.quiet++
+	defer func() { th.quiet-- }()
+	f()
+}
+
+// CurHash is the fingerprint of the schedule so far: the rolling hash of every enabled set met (hex).
+func CurHash() string {
+	S.mu.Lock()
+	defer S.mu.Unlock()
+	if n := len(S.Hashes); n > 0 {
+		return fmt.Sprintf("%016x", S.Hashes[n-1])
+	}
+	return "0"
+}
 
 // Quiesce parks the caller until no other thread is enabled (without letting time pass).
 func Quiesce() { Gate("quiesce", "", nil, nil) }
